@@ -195,6 +195,13 @@ func checkC11(c *core.Ctx) {
 	for _, pk := range []string{"tcpassembly", "reassembly"} {
 		checkConnReset(c, r9c, pk)
 	}
+	checkCoherentTriples(c, c.Rule("R11.12", "T", "a connection is returned together with its own two halves (= R9.14): otherwise a stream obtained from the factory gets data but never its completion"))
+	limitPairing(c, c.Rule("R11.11", "T", "each page limit is compared with the counter it limits"))
+	{
+		r10 := c.Rule("R11.10", "T", "page queue links are stored in pairs (= R9.11/R10.11): a page that drops out of the forward list is never delivered and never returned to the cache")
+		checkPairedLinks(c, r10, "tcpassembly")
+		checkPairedLinks(c, r10, "reassembly")
+	}
 	r7 := c.Rule("R11.7", "T", "free-list discipline: a connection is pushed on the pool's free list only when it was found in the live map, or only from the once-per-connection close function")
 	for _, pkg := range []string{"reassembly", "tcpassembly"} {
 		lp := &lifePkg{pkg: pkg, closers: map[*ssa.Function]bool{}, notClose: map[string]int{}}
@@ -631,12 +638,17 @@ func checkC11(c *core.Ctx) {
 				r7.Missing(key, "no store to the free list in remove")
 			} else {
 				guarded := false
+				stale := false
 				for _, dc := range core.DomConds(push.Block()) {
 					if ex, ok := dc.V.(*ssa.Extract); ok && ex.Index == 1 && dc.Truth {
 						if lk, ok := ex.Tuple.(*ssa.Lookup); ok && lk.CommaOk {
 							if a, ok := core.IsLoad(lk.X); ok {
 								if fa, ok := a.(*ssa.FieldAddr); ok && core.FieldOfAddr(fa).Name() == "conns" {
 									guarded = true
+									if unlockBetween(rm, lk, push) {
+										guarded = false
+										stale = true
+									}
 								}
 							}
 						}
@@ -651,6 +663,8 @@ func checkC11(c *core.Ctx) {
 					}
 				}
 				switch {
+				case stale && !onlyClose:
+					r7.Violate(key, p.InstrPos(push), "the lookup that decides whether the connection is still in the live map is made in an earlier critical section than the push on the free list (the pool's lock is released in between): two removers can both find the connection and both push it, so the same object is handed to two later connections", nil)
 				case guarded:
 					r7.OK(key, p.InstrPos(push), "pushed only when the connection was found in the live map")
 				case onlyClose:
@@ -770,4 +784,92 @@ func closedCondsFeeding(site ssa.Instruction) int {
 		}
 	}
 	return n
+}
+
+// limitPairing (R11.11): each configured page limit is compared with the
+// counter it limits: MaxBufferedPagesTotal with the page cache's `used`
+// (pages held by all connections), MaxBufferedPagesPerConnection with a
+// connection's (half-connection's) `pages`.  Comparing the total limit with a
+// per-connection counter turns the global bound into a per-connection one.
+func limitPairing(c *core.Ctx, r *core.Rule) {
+	p := c.P
+	want := map[string]string{"MaxBufferedPagesTotal": "used", "MaxBufferedPagesPerConnection": "pages"}
+	n := 0
+	for _, pkg := range []string{"tcpassembly", "reassembly"} {
+		for _, fn := range pkgFunctions(p, pkg) {
+			k := 0
+			core.Instrs(fn, func(ins ssa.Instruction) {
+				bo, ok := ins.(*ssa.BinOp)
+				if !ok {
+					return
+				}
+				switch bo.Op {
+				case token.LSS, token.LEQ, token.GTR, token.GEQ:
+				default:
+					return
+				}
+				fieldOf := func(v ssa.Value) string {
+					v = core.StripConv(v)
+					if ld, ok := v.(*ssa.UnOp); ok && ld.Op == token.MUL {
+						if fa, ok := ld.X.(*ssa.FieldAddr); ok {
+							return core.FieldOfAddr(fa).Name()
+						}
+					}
+					if f, ok := v.(*ssa.Field); ok {
+						return core.FieldOfVal(f).Name()
+					}
+					return ""
+				}
+				for _, side := range [][2]ssa.Value{{bo.X, bo.Y}, {bo.Y, bo.X}} {
+					lim := fieldOf(side[0])
+					cnt, isLimit := want[lim]
+					if !isLimit {
+						continue
+					}
+					if _, isK := core.ConstInt(side[1]); isK {
+						continue // `limit > 0`: is the limit configured at all
+					}
+					n++
+					k++
+					key := fmt.Sprintf("%s/limit:%s#%d", core.FnKey(fn), lim, k)
+					got := fieldOf(side[1])
+					if got == cnt {
+						r.OK(key, p.InstrPos(ins), lim+" is compared with "+cnt)
+					} else {
+						r.Violate(key, p.InstrPos(ins), lim+" is compared with "+map[bool]string{true: "field " + got, false: "a value that is not the counter " + cnt}[got != ""]+" instead of the counter it limits ("+cnt+"): the bound on buffered pages the option promises is not the bound that is enforced", nil)
+					}
+				}
+			})
+		}
+	}
+	c.Counts["limit_comparisons"] = n
+	if n < 4 {
+		r.Missing("assemblers/limit comparisons", fmt.Sprintf("only %d found", n))
+	}
+}
+
+// unlockBetween: some path from a to b releases a mutex (Unlock/RUnlock).
+func unlockBetween(fn *ssa.Function, a, b ssa.Instruction) bool {
+	isUnlock := func(i ssa.Instruction) bool {
+		cc := core.CallCommonOf(i)
+		if cc == nil {
+			return false
+		}
+		if _, isDefer := i.(*ssa.Defer); isDefer {
+			return false
+		}
+		n := core.StaticName(cc)
+		return strings.HasSuffix(n, ").Unlock") || strings.HasSuffix(n, ").RUnlock")
+	}
+	found := false
+	core.Instrs(fn, func(u ssa.Instruction) {
+		if found || !isUnlock(u) {
+			return
+		}
+		if core.ForwardSearch(fn, a, func(i ssa.Instruction) bool { return i == u }, func(i ssa.Instruction) bool { return i == b }) != nil &&
+			core.ForwardSearch(fn, u, func(i ssa.Instruction) bool { return i == b }, nil) != nil {
+			found = true
+		}
+	})
+	return found
 }
